@@ -7,3 +7,9 @@ import RexModel.Props.C02
 #print axioms Rex.C02.C02_nbCount_needed_prefix
 #print axioms Rex.C02.C02_source_queue_discipline
 #print axioms Rex.C02.C02_machine_ownership
+#print axioms Rex.C02.run_of_terminal
+#print axioms Rex.C02.restrict_good
+#print axioms Rex.C02.restrict_run
+#print axioms Rex.C02.bounded_good
+#print axioms Rex.C02.C02_completed_episodes_equal
+#print axioms Rex.C02.C02_bounded_is_run
